@@ -1,8 +1,7 @@
 ---------------------------- MODULE MC_ResponseEmit ----------------------------
 (* Bounded instances of ResponseEmit: the case table is enumerated in the initial states (one
-   initial state per case, every case runs the emission machine to its end), every disjunct of
-   ResponseEmit!Next is a named action so that TLC's coverage shows which emission steps fired,
-   and Emit exports every finished behaviour as one JSON object. *)
+   initial state per case, every case runs the emission machine to its end); Emit exports every
+   finished behaviour as one JSON object. *)
 EXTENDS ResponseEmit, Json
 
 CONSTANTS Ifaces, Codes, Methods, TextLens, DataLens, MediaLens, SseCounts, PresetCLs, Tier
@@ -11,7 +10,6 @@ CONSTANTS Ifaces, Codes, Methods, TextLens, DataLens, MediaLens, SseCounts, Pres
 L_5   == {-1, 5}
 L_05  == {-1, 0, 5}
 L_04  == {-1, 0, 4}
-L_4   == {-1, 4}
 L_7   == {-1, 7}
 S_2   == {-1, 2}
 S_02  == {-1, 0, 2}
@@ -60,17 +58,8 @@ MCInit ==
            /\ (Tier = "quick" /\ iface = "wsgifw") => st[1] = "file"
            /\ \E f \in (IF FaultBase(b) THEN FaultsOf(b) ELSE {<<"none", 0>>}) : Start([b EXCEPT !.fk = f[1], !.fa = f[2]])
 
-XSendStart       == SendStart
-XSendBody        == SendBody
-XSendEmpty       == SendEmpty
-XStreamRead      == StreamRead
-XStreamSendChunk == StreamSendChunk
-XCloseStream     == CloseStream
-XEof             == Eof
-XSseNext         == SseNext
-XSseSend         == SseSend
-MCNext == XSendStart \/ XSendBody \/ XSendEmpty \/ XStreamRead \/ XStreamSendChunk \/ XCloseStream \/ XEof
-          \/ XSseNext \/ XSseSend
+(* the disjuncts of ResponseEmit!Next are operator names, so TLC's coverage is per emission step *)
+MCNext == Next
 
 (* behaviour export: the finished emission of every case with the values the property fixes *)
 EvTuple(e) == <<e.k, e.n, e.more, e.src, e.idx>>
